@@ -14,6 +14,7 @@ unsigned gh_iq_results; qstr gh_iq_to; qstr gh_iq_id; int gh_iq_type;       /* s
 unsigned gh_connected; qstr gh_connected_jid;                               /* connected() = "a resource is bound" (the server adds the connection to its routing tables) */
 unsigned gh_counters;                                                       /* updateCounter() statistics signals */
 unsigned gh_respond_calls; int gh_respond_last; QXmppSaslServer *gh_respond_self;   /* QXmppSaslServer::respond calls and the last verdict */
+int gh_respond_old_step; qbytes gh_respond_secret; qbytes gh_respond_request;        /* last respond(): the object's step before the call; DIGEST-MD5: the secret digest the client's response was verified against, and the payload verified */
 unsigned gh_cp_calls; unsigned gh_gd_calls;                                 /* passwordChecker->checkPassword / getDigest calls */
 qstr gh_req_domain; qstr gh_req_user; qstr gh_req_password; QXmppPasswordReply *gh_req_reply;   /* the last request and the reply object created for it */
 unsigned gh_conn_count; QXmppPasswordReply *gh_conn_reply; QXmppIncomingClient *gh_conn_receiver; int gh_conn_slot;   /* connect(reply.finished -> slot) */
@@ -76,7 +77,7 @@ static inline QXmppPasswordReply *qobject_cast_reply(QXmppPasswordReply *o) { re
 /* event counters are unsigned and only ever compared with their value at entry (== old, == old + 1): wrap-around is harmless */
 #define EVENT_LOG gh_sent, gh_sent_last, gh_sent_success, gh_sent_features, gh_disconnects, gh_er_count, gh_er_node, gh_er_from, gh_er_to, gh_er_jid, \
   gh_bind_results, gh_bind_jid, gh_bind_id, gh_bind_type, gh_iq_results, gh_iq_to, gh_iq_id, gh_iq_type, gh_connected, gh_connected_jid, gh_counters, \
-  gh_respond_calls, gh_respond_last, gh_respond_self, gh_cp_calls, gh_gd_calls, gh_req_domain, gh_req_user, gh_req_password, gh_req_reply, \
+  gh_respond_calls, gh_respond_last, gh_respond_self, gh_respond_old_step, gh_respond_secret, gh_respond_request, gh_cp_calls, gh_gd_calls, gh_req_domain, gh_req_user, gh_req_password, gh_req_reply, \
   gh_conn_count, gh_conn_reply, gh_conn_receiver, gh_conn_slot, gh_parent_set, gh_deleted_later, gh_prop_n, \
   __CPROVER_object_whole(gh_prop_obj), __CPROVER_object_whole(gh_prop_name), __CPROVER_object_whole(gh_prop_val), \
   gh_ov_n, __CPROVER_object_whole(gh_ov_node), __CPROVER_object_whole(gh_ov_name), __CPROVER_object_whole(gh_ov_val)
@@ -107,8 +108,9 @@ __CPROVER_ensures(gh_sent_features == __CPROVER_old(gh_sent_features) + 1)
 #define MECH_KNOWN(m) ((m) == S("PLAIN") || (m) == S("DIGEST-MD5") || (m) == S("ANONYMOUS"))
 #define CHECKER_BACKED_SUCCESS(m) ((m) == S("DIGEST-MD5"))
 /* representation invariant of d->saslServer: objects come from create() (three mechanisms) and every code path that creates one calls
-   respond() on it right away, so an ANONYMOUS object has spent its one step (it can never say Succeeded again) */
-#define SASL_OBJECT_INV(s) ((s) == NULL || (MECH_KNOWN((s)->mechanism) && ((s)->mechanism != S("ANONYMOUS") || (s)->m_step >= 1)))
+   respond() on it right away, so an ANONYMOUS object has spent its one step (it can never say Succeeded again) and a DIGEST-MD5 object is past its nonce step */
+#define SASL_OBJECT_INV(s) ((s) == NULL || (MECH_KNOWN((s)->mechanism) && ((s)->mechanism != S("ANONYMOUS") || (s)->m_step >= 1) && \
+  ((s)->mechanism != S("DIGEST-MD5") || ((s)->m_step >= 1 && (s)->password == 0))))    /* a DIGEST-MD5 object never holds a clear-text password: only PLAIN's respond() calls setPassword() */
 /* create(): nullptr for an unknown mechanism, otherwise a new object of one of the three mechanisms, at step 0, with no credentials yet */
 QXmppSaslServer *QXmppSaslServer_create(qstr mechanism, QXmppIncomingClient *parent)
 __CPROVER_assigns()
@@ -119,13 +121,22 @@ __CPROVER_ensures(__CPROVER_return_value == NULL || (__CPROVER_is_fresh(__CPROVE
    ANONYMOUS are the postconditions verified on the real overrides (plainRespond.spec, anonymousRespond.spec); DIGEST-MD5 is assumed. */
 int QXmppSaslServer_respond(QXmppSaslServer *self, qbytes request, qbytes *response)
 __CPROVER_requires(self != NULL)
-__CPROVER_assigns(*response, self->username, self->password, self->m_step, gh_respond_calls, gh_respond_last, gh_respond_self)
+__CPROVER_assigns(*response, self->username, self->password, self->m_step, gh_respond_calls, gh_respond_last, gh_respond_self, gh_respond_old_step, gh_respond_secret, gh_respond_request)
 __CPROVER_ensures((__CPROVER_return_value == RESP_Challenge || __CPROVER_return_value == RESP_Succeeded || __CPROVER_return_value == RESP_Failed || __CPROVER_return_value == RESP_InputNeeded) &&
                   gh_respond_last == __CPROVER_return_value && gh_respond_calls == __CPROVER_old(gh_respond_calls) + 1 && gh_respond_self == self)
 __CPROVER_ensures(self->mechanism == S("PLAIN") ==> __CPROVER_return_value != RESP_Succeeded)
 __CPROVER_ensures(self->mechanism == S("ANONYMOUS") ==> ((__CPROVER_return_value == RESP_Succeeded ? __CPROVER_old(self->m_step) == 0 : __CPROVER_return_value == RESP_Failed) &&
                   self->m_step >= 1 && self->username == __CPROVER_old(self->username) && self->password == __CPROVER_old(self->password)))
-__CPROVER_ensures((self->mechanism == S("DIGEST-MD5") && __CPROVER_return_value == RESP_Succeeded) ==> __CPROVER_old(self->m_step) >= 1)
+__CPROVER_ensures(gh_respond_old_step == __CPROVER_old(self->m_step) && gh_respond_request == request)
+/* DIGEST-MD5 (assumed from QXmppSaslServerDigestMd5::respond, src/base/QXmppSasl.cpp:1406-1466; its arithmetic is not verified):
+   step 0 issues the nonce challenge; step 1 parses the client's response, asks for input while it has neither a password nor a digest,
+   otherwise verifies the response against the secret digest (the stored passwordDigest when no password is set) and only then goes to
+   step 2 with Challenge(rspauth); step 2 says Succeeded; later steps fail.  It never sets a password and never goes back a step. */
+__CPROVER_ensures(self->mechanism == S("DIGEST-MD5") ==> (self->password == __CPROVER_old(self->password) && self->m_step >= 1 && self->m_step >= __CPROVER_old(self->m_step) &&
+                  (__CPROVER_return_value == RESP_Succeeded ==> __CPROVER_old(self->m_step) == 2) &&
+                  ((self->m_step == 2 && __CPROVER_old(self->m_step) != 2) ==> (__CPROVER_old(self->m_step) == 1 && __CPROVER_return_value == RESP_Challenge &&
+                       (self->password != 0 || (self->passwordDigest != 0 && gh_respond_secret == self->passwordDigest)))) &&
+                  ((__CPROVER_old(self->m_step) == 1 && self->password == 0 && self->passwordDigest == 0) ==> ((__CPROVER_return_value == RESP_InputNeeded || __CPROVER_return_value == RESP_Failed) && self->m_step == 1))))
 ;
 /* mechanism() (virtual): the constant name of the object's mechanism */
 qstr QXmppSaslServer_mechanism(const QXmppSaslServer *self)
@@ -158,7 +169,8 @@ __CPROVER_ensures(gh_gp_calls == __CPROVER_old(gh_gp_calls) + 1 && gh_gp_result 
 /* new QXmppPasswordReply: QXmppPasswordReply::QXmppPasswordReply(QObject*) initialises m_error(NoError), m_isFinished(false) */
 QXmppPasswordReply *QXmppPasswordReply_new(void)
 __CPROVER_assigns()
-__CPROVER_ensures(__CPROVER_is_fresh(__CPROVER_return_value, sizeof(QXmppPasswordReply)) && __CPROVER_return_value->m_error == QXmppPasswordReply_Error__NoError && !__CPROVER_return_value->m_isFinished)
+__CPROVER_ensures(__CPROVER_is_fresh(__CPROVER_return_value, sizeof(QXmppPasswordReply)) && __CPROVER_return_value->m_error == QXmppPasswordReply_Error__NoError && !__CPROVER_return_value->m_isFinished &&
+                  __CPROVER_return_value->m_digest == 0 && __CPROVER_return_value->m_password == 0)    /* default-constructed QByteArray / QString members */
 ;
 /* finishLater(): QTimer::singleShot(0, this, &finish) -- finished() is emitted from the event loop, not now */
 void QXmppPasswordReply_finishLater(QXmppPasswordReply *self)
@@ -195,6 +207,14 @@ qstr QXmppUtils_generateStanzaHash(int length) __CPROVER_assigns() __CPROVER_ens
 /* dynamic properties of a reply object (two-slot table): property `name` of `obj` is stored with value v / is absent or has value v */
 #define REPLY_PROPERTY_IS(obj, name, v) ((gh_prop_n >= 1 && gh_prop_obj[0] == (obj) && gh_prop_name[0] == (name) && gh_prop_val[0] == (v)) || \
   (gh_prop_n == 2 && gh_prop_obj[1] == (obj) && gh_prop_name[1] == (name) && gh_prop_val[1] == (v) && !(gh_prop_obj[0] == (obj) && gh_prop_name[0] == (name))))
+/* what the bundled getDigest() computes for a known user: MD5(utf8(user ':' domain ':' secret)) -- written with the same string vocabulary as the lowered code */
+#define DIGEST_OF(user, domain, secret) qbytes_hash(qstr_toUtf8(qstr_concat(qstr_append_char(qstr_concat(qstr_append_char((user), 58), (domain)), 58), (secret))), QCryptographicHash_Algorithm__Md5)
+/* the contract of QXmppPasswordChecker::getDigest (verified on the bundled implementation, getDigest.spec) as seen by the slot that consumes the reply:
+   a reply that does not say NoError carries no digest */
+#define REPLY_OBEYS_GETDIGEST(r) ((r) == NULL || (r)->m_error == QXmppPasswordReply_Error__NoError || (r)->m_digest == 0)
+/* during this call the connection's DIGEST-MD5 object passed the verification of the client's response (step 1 -> 2: the only way it can later say Succeeded) */
+#define DIGEST_VERIFIED_NOW (self->d->saslServer != NULL && self->d->saslServer->mechanism == S("DIGEST-MD5") && gh_respond_calls != __CPROVER_old(gh_respond_calls) && \
+  gh_respond_self == self->d->saslServer && gh_respond_old_step == 1 && self->d->saslServer->m_step == 2)
 #define STANDARD_FRAME (__CPROVER_is_fresh(self, sizeof(*self)) && __CPROVER_is_fresh(self->d, sizeof(*self->d)) && __CPROVER_is_fresh(self->d->idleTimer, sizeof(QTimer)) && \
   __CPROVER_is_fresh(self->d->socket.m_socket, sizeof(QSslSocket)))
 
@@ -230,7 +250,7 @@ static inline void gh_havoc(void) {
   gh_bind_results = nondet_uint(); gh_bind_jid = nondet_int(); gh_bind_id = nondet_int(); gh_bind_type = nondet_int();
   gh_iq_results = nondet_uint(); gh_iq_to = nondet_int(); gh_iq_id = nondet_int(); gh_iq_type = nondet_int();
   gh_connected = nondet_uint(); gh_connected_jid = nondet_int(); gh_counters = nondet_uint();
-  gh_respond_calls = nondet_uint(); gh_respond_last = nondet_int(); gh_respond_self = nondet_sasl_ptr();
+  gh_respond_calls = nondet_uint(); gh_respond_last = nondet_int(); gh_respond_self = nondet_sasl_ptr(); gh_respond_old_step = nondet_int(); gh_respond_secret = nondet_int(); gh_respond_request = nondet_int();
   gh_cp_calls = nondet_uint(); gh_gd_calls = nondet_uint(); gh_req_domain = nondet_int(); gh_req_user = nondet_int(); gh_req_password = nondet_int(); gh_req_reply = nondet_reply_ptr();
   gh_conn_count = nondet_uint(); gh_conn_reply = nondet_reply_ptr(); gh_conn_receiver = nondet_client_ptr(); gh_conn_slot = nondet_int();
   gh_sender = nondet_reply_ptr(); gh_sender_req_user = nondet_int(); gh_sender_req_domain = nondet_int();
